@@ -2,6 +2,8 @@ package props
 
 import (
 	"crypto/sha256"
+	"encoding/base64"
+	"encoding/json"
 	"fmt"
 	"os"
 	"path/filepath"
@@ -20,6 +22,22 @@ type SnapOpts struct {
 	Witness     *world.Operator // console events are those this operator has received
 	LootContent bool            // hash file contents (else size only)
 	SkipLastSeen bool
+	// SkipTaskAnnouncements leaves the "Send Task to Agent [n bytes]" console lines out: they belong
+	// to the check-in that hands tasks out (for a pivot child: to the relay through its parent), not
+	// to a callback that travels with it
+	SkipTaskAnnouncements bool
+}
+
+func isTaskAnnouncement(info map[string]any) bool {
+	out, _ := info["Output"].(string)
+	raw, err := base64.StdEncoding.DecodeString(out)
+	if err != nil {
+		return false
+	}
+	m := map[string]string{}
+	json.Unmarshal(raw, &m)
+	// (the relay of a pivot child's packages also leaves an empty message, which shows nothing)
+	return strings.HasPrefix(m["Message"], "Send Task to Agent [") || len(m) == 0
 }
 
 func TakeSnap(w *world.World, o SnapOpts) Snap {
@@ -56,7 +74,15 @@ func TakeSnap(w *world.World, o SnapOpts) Snap {
 	s["agents"] = fmt.Sprint(len(ts.Agents.Agents))
 	s["listeners"] = fmt.Sprint(len(ts.Listeners))
 	// retained events other than last-seen notifications
-	s["retained"] = fmt.Sprint(len(ts.EventsList))
+	retained := len(ts.EventsList)
+	if o.SkipTaskAnnouncements {
+		for _, pk := range ts.EventsList {
+			if pk.Head.Event == world.EvSession && pk.Body.SubEvent == world.SessOutput && isTaskAnnouncement(pk.Body.Info) {
+				retained--
+			}
+		}
+	}
+	s["retained"] = fmt.Sprint(retained)
 	s["dials"] = fmt.Sprint(len(w.Sim.Outbound()))
 	// console events the witness has seen (Session.Output except last-seen)
 	if o.Witness != nil {
@@ -65,6 +91,9 @@ func TakeSnap(w *world.World, o SnapOpts) Snap {
 		for _, e := range o.Witness.Events {
 			if e.Pkg.Head.Event == world.EvSession && e.Pkg.Body.SubEvent == world.SessOutput {
 				if c, _ := e.Pkg.Body.Info["CommandID"].(string); c == "10" {
+					continue
+				}
+				if o.SkipTaskAnnouncements && isTaskAnnouncement(e.Pkg.Body.Info) {
 					continue
 				}
 				n++
